@@ -43,10 +43,32 @@ RetargetItem(t, it) ==
                             [it.sx[j] EXCEPT !.d = IF Len(it.sx[j].d) >= 2 /\ it.sx[j].d[1] = "C"
                                                    THEN [it.sx[j].d EXCEPT ![2] = RetargetName(t, it.sx[j].d[2])]
                                                    ELSE it.sx[j].d]]]
+\* A patch may also contribute contents to other sections (`.section .data ...`):
+\* each such chunk becomes a byte interval of its own in that section.  Where the
+\* layout puts it (front or back) is observed through the chunk's first label.
+PreSymNames0(t) == {t.pre.syms[i].n : i \in DOMAIN t.pre.syms}
+HasOther(r) == "other" \in DOMAIN r.patch /\ r.patch.other # <<>>
+ChunksFor(t, nm) ==
+  LET rs == SortedById(SelectSeq(t.reqs, LAMBDA r : HasOther(r) /\ \E i \in DOMAIN r.patch.other : r.patch.other[i].name = nm))
+      one(r) == LET cs == SelectSeq(r.patch.other, LAMBDA c : c.name = nm)
+                IN  FlattenSeq([i \in 1..Len(cs) |->
+                       PatchItems([r EXCEPT !.patch = [units |-> cs[i].units, labels |-> cs[i].labels, sx |-> cs[i].sx,
+                                                       sxs |-> cs[i].sxs, cfi |-> <<>>, n |-> cs[i].n]],
+                                  <<>>, "data")])
+  IN  FlattenSeq([i \in 1..Len(rs) |-> one(rs[i])])
+ChunkLabels(t, nm) ==
+  UNION {UNION {{l.base : l \in {x \in Range(c.labels) : x.o = 0}} : c \in {y \in Range(r.patch.other) : y.name = nm}} :
+            r \in {z \in Range(t.reqs) : HasOther(z)}}
+ChunkInFront(t, nm) ==
+  \E i \in DOMAIN t.post.syms : t.post.syms[i].b \in ChunkLabels(t, nm) /\ t.post.syms[i].k = "blk"
+                                /\ t.post.syms[i].n \notin PreSymNames0(t)
+                                /\ t.post.syms[i].s = nm /\ t.post.syms[i].p = 0
 Ctx(t) ==
   LET E == [nm \in SecNames(t.pre) |->
               LET body0 == Edit(t.pre, t.reqs, Flat(SecByName(t.pre, nm)))
-                  body == IF HasRetarget(t) THEN [i \in 1..Len(body0) |-> RetargetItem(t, body0[i])] ELSE body0
+                  body1 == IF HasRetarget(t) THEN [i \in 1..Len(body0) |-> RetargetItem(t, body0[i])] ELSE body0
+                  ch == ChunksFor(t, nm)
+                  body == IF ch = <<>> THEN body1 ELSE IF ChunkInFront(t, nm) THEN ch \o body1 ELSE body1 \o ch
                   fnIt == IF nm = ".text" THEN InsFnItems(t) ELSE <<>>
               IN  IF fnIt # <<>> /\ InsFnInFront(t) THEN fnIt \o body ELSE body \o fnIt]
   IN  [t |-> t, E |-> E, P |-> [nm \in SecNames(t.pre) |-> PosSeq(E[nm])], reqs |-> t.reqs]
@@ -80,8 +102,14 @@ BlocksTile(st) ==
 PatchesDecoded(reqs) ==
   \A i \in DOMAIN reqs :
      /\ \A j \in DOMAIN reqs[i].patch.units : reqs[i].patch.units[j].k # "bad"
-     \* patches that also add contents to other sections are not modelled by Edit yet
-     /\ reqs[i].patch.nsec <= 1
+     \* contents for other sections: data only, into an existing section, starting with a
+     \* label (the placement is observed through it); see ChunksOk for the count
+     /\ (HasOther(reqs[i]) =>
+           \A j \in DOMAIN reqs[i].patch.other :
+              LET c == reqs[i].patch.other[j]
+              IN  /\ \A q \in DOMAIN c.units : c.units[q].k = "data"
+                  /\ \E l \in Range(c.labels) : l.o = 0)
+     /\ (~HasOther(reqs[i]) => reqs[i].patch.nsec <= 1)
 
 \* The API forbids inserting into zero-sized blocks, and an insertion that is
 \* anchored in a block which the same batch deletes entirely has no position
@@ -102,8 +130,18 @@ NoAlignment(st) ==
 
 \* positions are defined through addresses: every byte interval needs one
 AllAddressed(st) == \A i \in DOMAIN st.secs : st.secs[i].noaddr = 0
+\* several chunks for one section get byte intervals whose relative order is the
+\* layout's choice: at most one chunk per section, and only into existing sections
+ChunksOk(t) ==
+  LET names == UNION {{c.name : c \in Range(r.patch.other)} : r \in {z \in Range(t.reqs) : HasOther(z)}}
+  IN  /\ names \subseteq SecNames(t.pre) \ {".text"}
+      /\ \A nm \in names :
+            Cardinality({<<i, j>> \in UNION {{<<i, j>> : j \in DOMAIN t.reqs[i].patch.other} :
+                                               i \in {k \in DOMAIN t.reqs : HasOther(t.reqs[k])}} :
+                           t.reqs[i].patch.other[j].name = nm}) <= 1
 DomG1(t) ==
   /\ AllAddressed(t.pre)
+  /\ ChunksOk(t)
   /\ \A i \in DOMAIN t.reqs : ReqWellPlaced(t.pre, t.reqs[i])
   /\ NonOverlapping(t.reqs)
   /\ BlocksTile(t.pre)
